@@ -62,6 +62,8 @@ def decorate(kind, line, text):
         return W([a + " --" + t for a, t in zip(line.ex, text.ex)])
     if kind == "/**/":
         return W([a + " /*" + t + " */" for a, t in zip(line.ex, text.ex)])
+    if kind == "/**/ --":       # two trailing comments on one line: a closed block comment, then a dash comment
+        return W([a + " /*" + t + " */ --" + t for a, t in zip(line.ex, text.ex)])
     raise AnalysisError(kind)
 
 
@@ -353,6 +355,9 @@ def run(ck, ctx):
                 texts = list(TEXTS.items()) + (list(MARKER_TEXTS.items()) if dk == "--" else [])
                 for tname, text in texts:
                     moves.append(("code", cname, dk, tname, cline, decorate(dk, cline, text), text))
+            for tname, text in TEXTS.items():
+                both = W([t + " */ --" + t for t in text.ex])           # what is written as comment on that line
+                moves.append(("code", cname, "/**/ --", tname, cline, decorate("/**/ --", cline, text), both))
         # (b) a comment-only line in the commented script
         for ck_ in ("--", "  --", "#", "  #", "/**/", "  /**/"):
             texts = list(TEXTS.items()) + (list(MARKER_TEXTS.items()) if "/" not in ck_ else [])
@@ -510,10 +515,12 @@ def run(ck, ctx):
     for dk in ("--", "/**/"):
         for tname in list(TEXTS) + (list(MARKER_TEXTS) if dk == "--" else []):
             groups[f"code line followed by a `{dk}` comment ({tname} text)"] = 1
+    for tname in TEXTS:
+        groups[f"code line followed by a `/**/ --` comment ({tname} text)"] = 1
     for ck_ in ("--", "  --", "#", "  #", "/**/", "  /**/"):
         for tname in list(TEXTS) + (list(MARKER_TEXTS) if "/" not in ck_ else []):
             groups[f"whole-line `{ck_.strip()}` comment{' (indented)' if ck_.startswith(' ') else ''} ({tname} text)"] = 1
-    for dk in ("--", "/**/"):
+    for dk in ("--", "/**/", "/**/ --"):
         groups[f"code line with `--` inside a string literal, followed by a `{dk}` comment"] = 1
     for o in ("indented", "at the margin"):
         groups[f"block comment over several lines, opening line {o}"] = 1
